@@ -473,6 +473,17 @@ def _init(cls):
     tm = _body(_fn(cls, "token_maintenance", COMMUNITY))
     if not tm or _u(tm[0]) != "self.token_secrets.append(os.urandom(16))":
         raise TranslatorError("token_maintenance does not start by appending os.urandom(16) to token_secrets")
+    ref_tm = ("def token_maintenance(self):\n    self.token_secrets.append(os.urandom(16))\n    now = time.time()\n"
+              "    for node_id, (ts, _) in COPY(self.tokens.items()):\n        if now > ts + TOKEN_EXPIRATION_TIME:\n"
+              "            self.tokens.pop(node_id, None)\n")
+    ref_tm2 = ("def token_maintenance(self):\n    self.token_secrets.append(os.urandom(16))\n    now = time.time()\n"
+               "    self.tokens = {node_id: (ts, token) for node_id, (ts, token) in self.tokens.items()"
+               " if not now > ts + TOKEN_EXPIRATION_TIME}\n")
+    tmf = _fn(cls, "token_maintenance", COMMUNITY)
+    if not (any(_same_up_to_renaming(tmf, ref_tm.replace("COPY", c)) for c in ("list", "tuple"))
+            or _same_up_to_renaming(tmf, ref_tm2)):
+        raise TranslatorError("token_maintenance: the clean-up of received tokens is not the recognised shape (drop entries "
+                              "with now > ts + TOKEN_EXPIRATION_TIME while iterating over a COPY of self.tokens)")
     if not any(_same_up_to_renaming(_fn(cls, "value_maintenance", COMMUNITY), r) for r in (
             "def value_maintenance(self):\n    for storage in self.storages.values():\n        storage.clean()",
             "def value_maintenance(self):\n    for address_cls, storage in self.storages.items():\n        storage.clean()",
